@@ -1169,7 +1169,7 @@ def c03(ctx):
 
 
 # ---------------------------------------------------------------------- C07
-ARITH_OPS = '{"add", "sub", "mul", "udiv", "umod", "idiv", "imod", "ult", "ule", "ugt", "uge", "ilt", "ile", "igt", "ige", "eq", "neq", "band", "bor", "bxor", "bclr", "hamming", "mux"}'
+ARITH_OPS = '{"add", "sub", "mul", "udiv", "umod", "idiv", "imod", "ult", "ule", "ugt", "uge", "ilt", "ile", "igt", "ige", "eq", "neq", "band", "bor", "bxor", "bclr", "hamming", "mux", "index1", "index2", "index3", "land", "lor", "bts", "btc"}'
 ARITH_CFG = """SPECIFICATION Spec
 CONSTANTS
   OpSet = %s
@@ -1194,6 +1194,8 @@ def c07(ctx):
     runs = [("arith-all", ARITH_OPS, 1, 5 if thorough else 3, '{"min", "max", "max+1", "2max", "2max+3"}' if thorough else '{"min", "max", "max+1", "2max"}', "FALSE")]
     runs.append(("arith-eq", '{"add", "sub", "mul", "udiv", "umod", "idiv", "imod", "ilt", "uge", "eq", "hamming"}', 4 if not thorough else 6,
                  6 if not thorough else 8, '{"max"}', "TRUE"))
+    # array index: 1..6 (8) elements of 1..3 bits, index values of 1..6 (8) bits (more and fewer than needed)
+    runs.append(("arith-index", '{"index1", "index2", "index3", "bts", "btc"}', 1, 6 if not thorough else 8, '{"max"}', "FALSE"))
     allcases = []
     for name, ops, wmin, wmax, kinds, eq in runs:
         g = ctx.tlc("Arith", "Arith_gen.cfg", mode="gen", name=name, timeout=3400, heap="16g", cfg_text=ARITH_CFG % (ops, wmin, wmax, kinds, eq))
